@@ -4,6 +4,10 @@
 (* attached tunnel community, hop count) evolves from the logged calls, the circuits table is the  *)
 (* logged environment, and what each step emitted (raw socket / send_data) and left in the queue   *)
 (* must be allowed by StepAllowed.  Nothing of the implementation layer is demanded here.          *)
+(* WHO ASKED evolves from the logged life-cycle calls alone (header: the instances built at the    *)
+(* start; events "load" = Community(anonymize = v) for prefix p, "unload" = instance i unloaded,   *)
+(* "setanon" = explicit set_anonymity): the switch inside the endpoint is never consulted, a send  *)
+(* is judged by KindOf(sending instance).                                                          *)
 EXTENDS TunnelEndpoint, Json, IOUtils, TLCExt
 
 Traces == JsonDeserialize(IOEnv.TRACE_FILE)
@@ -14,7 +18,11 @@ tvars == <<vars, tid, l>>
 Ev == Traces[tid].events
 
 TraceInit == /\ tid \in 1..Len(Traces) /\ l = 1
-             /\ anon = [p \in Pfx |-> Traces[tid].anon[p]]
+             /\ insts = [i \in 1..Len(Traces[tid].insts) |->
+                          [p |-> Traces[tid].insts[i].p, req |-> Traces[tid].insts[i].req, loaded |-> TRUE]]
+             /\ asked = [p \in Pfx |-> \E i \in 1..Len(Traces[tid].insts) :
+                                           Traces[tid].insts[i].p = p /\ Traces[tid].insts[i].req]
+             /\ anon = asked
              /\ attached = Traces[tid].attached
              /\ hopsCfg = Traces[tid].hops
              /\ cand = FALSE /\ ncirc = 0
@@ -28,11 +36,17 @@ TraceNext ==
   /\ LET e     == Ev[l]
          att2  == IF e.a = "attach" THEN TRUE ELSE IF e.a = "detach" THEN FALSE ELSE attached
          hops2 == IF e.a = "attach" THEN e.h ELSE IF e.a = "detach" THEN 1 ELSE hopsCfg
-         kind  == IF e.a = "send" THEN (IF anon[e.p] THEN "anon" ELSE "plain") ELSE "env"
+         kind  == IF e.a = "send" THEN KindOf(insts, asked, e.i) ELSE "env"
          pkt   == IF e.a = "send" THEN e.pkt ELSE 0
      IN
+       /\ e.a \in {"send", "unload"} => e.i \in DOMAIN insts
        /\ TRUE = Judge(kind, pkt, {pkt}, queue, e.queue, e.out, attached, hopsCfg, circuits, att2, hops2, e.circs)
-       /\ anon' = IF e.a = "setanon" THEN [anon EXCEPT ![e.p] = e.v] ELSE anon
+       /\ insts' = IF e.a = "setanon" THEN InstsAfterSet(insts, e.p, e.v)
+                   ELSE IF e.a = "load" THEN InstsAfterLoad(insts, e.p, e.v)
+                   ELSE IF e.a = "unload" THEN InstsAfterUnload(insts, e.i) ELSE insts
+       /\ asked' = IF e.a = "setanon" THEN AskedAfterSet(asked, e.p, e.v)
+                   ELSE IF e.a = "load" THEN AskedAfterLoad(asked, e.p, e.v) ELSE asked
+       /\ anon' = asked'
        /\ attached' = att2 /\ hopsCfg' = hops2
        /\ circuits' = e.circs /\ queue' = e.queue /\ out' = e.out
        /\ nsent' = IF e.a = "send" THEN e.pkt ELSE nsent
@@ -43,4 +57,7 @@ TraceSpec == TraceInit /\ [][TraceNext]_tvars
 
 (* total verdict: a trace is rejected exactly when some logged event is not an allowed step *)
 TraceAccepted == l <= Len(Ev) => ENABLED TraceNext
+(* for a batch of falsified histories (negative controls): every one of them has to get stuck   *)
+(* before its end - the one that is accepted to the end shows up as the violating tid           *)
+NoneAccepted == l <= Len(Ev)
 =============================================================================
